@@ -53,6 +53,14 @@ CHECKS = {
          "Every path text over a structural segment alphabet up to 6 (quick) / 8 (thorough) segments, both families, with every path query and every interleaving of front/back iteration two steps past exhaustion, compared with a list model derived from the text. Exhaustive inside the bound; the scanners branch only on '/', so the bound covers every code path several times over.",
          "Trusted: the '/'-split list model (20 lines), the reference path DFA from /verif/spec deciding domain membership, rustc. Not covered: paths with more segments than the bound (except that iteration code has no length-dependent branch).",
          "DESIGN.md section 6, C12"),
+ "C13": ("exhaustive sweep of every conversion between the eight URI/IRI types on all short IRI references (judged by the reference URI grammars) + differential execution of both front-ends on the same ASCII inputs",
+         "Conversions: every valid IRI reference of up to 6 (quick) / 7 (thorough) tokens incl. non-ASCII text and of the structured domain (1.9 M texts) through all 60 as_*/into_*/try_into_*/TryFrom/From routes: success exactly when the reference URI / URI-reference DFA accepts the text (resp. a scheme is present), bytes (and pointer, for borrowed forms) preserved, failures return the original value, unchecked upcasts re-validate. Differential: for every URI-valid member of the structured domain the URI and the IRI front-end must produce identical observations for all read accessors, 35 mutations (setters, path edits, authority edits, resolve) and, on all ordered pairs of a sub-domain, ==/cmp/hash/resolve/relative_to/suffix.",
+         "Trusted: reference DFAs for URI / URI-reference; the differential half has no model at all (one front-end is the other's oracle), so a defect present identically in both is invisible to it - C02-C12, C15, C16 cover that.",
+         "DESIGN.md section 6, C13"),
+ "C14": ("exhaustive sweep of every textual route out on a class-complete set of valid values per type, and of every route in on the complete W-method m=0 suite per type",
+         "For each of the 20 types: every accepting trace of the class-alphabet conformance suite plus every spelling of C07's domains through 20 routes out (Display, Debug, as_str, as_bytes, AsRef<str>/<[u8]>, to_owned, Clone, into_bytes, From<Buf> for String, serde_json string and value serialisers, serialise->deserialise, text after ==/cmp/hash), borrowed and owned; comparison with plain strings (all str/String/[u8] impls) against every spelling must be plain text equality; every suite trace (valid and invalid) through every route in must be accepted exactly when `validate` accepts it.",
+         "Trusted: rustc-generated code is exercised per type and route, so a wrong per-type derive option is visible; the suite is complete for automata with at most n states over the class alphabet.",
+         "DESIGN.md section 6, C14"),
  "C15": ("exhaustive sweep over all ordered pairs (a, b) of a structured URI/IRI domain: relative_to, then the library's own resolution, compared with a by the reference equivalence",
          "All ordered pairs over scheme {s,t} x authority {none, empty, h, g} x PATH(2) (quick, 1.2 M pairs) / PATH(3) with dot, colon and multi-byte segments (thorough, ~50 M pairs) x query x fragment, both families: no panic, result is a valid reference, inputs unchanged, both entry points agree, and result.resolved(b) is equal to a (library == where the strict model says equal; reference equivalence up to the [\"\"]/[] identification, to collapsing of leading empty segments without authority, and to a's own RFC normal form).",
          "Trusted: the resolution and equivalence models shared with C06/C07. The leniencies are exactly the corners where RFC dot-segment removal cannot reproduce a (a kept trailing '..', a lone empty segment, a leading empty segment without authority).",
@@ -65,6 +73,10 @@ CHECKS = {
          "All sequences of up to 3 (quick) / 4 (thorough) tokens over 21-22 tokens covering ASCII, literal non-ASCII, continuation bytes low/high, overlong leads C0/C1/E0, 2/3/4-byte leads, surrogate lead ED A0, beyond-range F4 90 / F5, FF, %2F, %25, for Segment, Host, UserInfo, Query, Fragment of both families, stand-alone and obtained from a parsed URI/IRI (209 k values quick): bytes() equals the model's octets, and chars/len/decode/== str/Deref/into_pct_string terminate and yield the UTF-8 text of well-formed octets and never equate ill-formed octets with well-formed text.",
          "Trusted: the octet decoder of model/equiv.rs. Two known findings rooted in the pct-str / utf8-decode dependencies are listed in known_findings.json with matchers pinned to the panic site pct-str-2.0.0/src/lib.rs:200 and to the (operation, ill-formed octets, wrong value) signature; any other violation still exits 1.",
          "DESIGN.md section 6, C19"),
+ "C20": ("exhaustive sweep of all short references (+ inputs far larger than any inline buffer) under a counting global allocator and pointer-range monitor",
+         "Every valid reference of up to 6 (quick) / 7 (thorough) tokens and of the structured domain, both families (2.8 M inputs quick), plus 17/40-segment and 600/5000-byte inputs: about 50 probes per input - heap allocation count across new, validate, every component accessor, parts(), full forward and backward segment iteration, first/last/file_name/directory/parent/parent_or_empty, base, authority accessors and parts, component constructors; every returned slice must lie inside the caller's input (or be one of the constants \"\", \"/\", \"/./\"); the parsed value must be exactly the input slice; scheme < authority < path < query < fragment by address, disjoint; accessors and parts() must point at the same bytes.",
+         "Trusted: the counting allocator (per-thread counter of alloc/alloc_zeroed/realloc) and pointer arithmetic in the harness. Stack usage and reads are not observed.",
+         "DESIGN.md section 6, C20"),
 }
 
 def load_props():
